@@ -405,9 +405,12 @@ pub fn run(args: &Args, out: &mut dyn Write) -> Stats {
             stats.add(&format!("history.{}", k), v);
         }
     }
-    if let Some(t) = case_multihomed(&path) {
-        writeln!(out, "{}", t.0).unwrap();
-        stats.bump("multihomed-witness");
+    match case_multihomed(&path) {
+        Some(t) => {
+            writeln!(out, "{}", t.0).unwrap();
+            stats.bump("multihomed-witness");
+        }
+        None => stats.bump("multihomed-witness.unavailable"),
     }
     let mut r = Rng::new(args.seed);
     for _ in 0..args.n {
@@ -423,18 +426,21 @@ pub fn run(args: &Args, out: &mut dyn Write) -> Stats {
     stats
 }
 
-/// kind 3: the multi-homed witness of S05_multihomed_refuted on the real handler.  A server with the
-/// addresses 192.0.2.1 and 198.51.100.1 answers a DISCOVER received on 192.0.2.1 (and so learns that
-/// identifier, as recvdhcp does); then a REQUEST naming 192.0.2.1 arrives on 198.51.100.1 -- once on the
-/// uninterrupted server, once after a restart (store reopened, the in-memory identifier set empty).
-///   3 a1 a2 b1 b2      a = uninterrupted, b = restarted; 1 = answered
+/// kind 3: the multi-homed witness of S05_multihomed_refuted on the real code.  A server whose host has the
+/// address 127.0.0.1 (any host has) serves 127.0.0.0/8 and 198.51.100.0/24.  It answers a DISCOVER received on
+/// 127.0.0.1 and, as the receive loop does, remembers that identifier; then a REQUEST naming 127.0.0.1 arrives
+/// on 198.51.100.1 -- once on the uninterrupted service, once after a restart (a NEW DhcpService object around
+/// the reopened store: nothing remembered).  The identifiers handed to handle_pkt are the receive loop's own
+/// (`verif_own_serverids`).      3 a1 a2 b1 b2      a = uninterrupted, b = restarted; 1 = answered
 fn case_multihomed(path: &str) -> Option<Toks> {
     use erbium::dhcp;
     use erbium::dhcp::dhcppkt;
     use erbium::dhcp::dhcppkt::verif as hk;
-    let conf = erbium::config::verif_load_config_from_string("addresses: [192.0.2.1/24, 198.51.100.1/24]\n").ok()?;
-    let conf = conf.try_read().ok()?;
-    let a: std::net::Ipv4Addr = "192.0.2.1".parse().unwrap();
+    let conf = erbium::config::verif_load_config_from_string(
+        "dhcp-policies:\n  - match-subnet: 127.0.0.0/8\n    apply-range: {start: 127.0.0.10, end: 127.0.0.20}\n  - match-subnet: 198.51.100.0/24\n    apply-range: {start: 198.51.100.10, end: 198.51.100.20}\n",
+    )
+    .ok()?;
+    let a: std::net::Ipv4Addr = "127.0.0.1".parse().unwrap();
     let b: std::net::Ipv4Addr = "198.51.100.1".parse().unwrap();
     let mk = |mt: u8, serverip: std::net::Ipv4Addr, sid: Option<std::net::Ipv4Addr>| {
         let mut options = dhcppkt::DhcpOptions::default();
@@ -466,24 +472,46 @@ fn case_multihomed(path: &str) -> Option<Toks> {
             if_router: None,
         }
     };
+    let rt = tokio::runtime::Builder::new_current_thread().enable_all().build().ok()?;
+    let service = |rt: &tokio::runtime::Runtime| -> Option<dhcp::DhcpService> {
+        let c2 = conf.clone();
+        let p = pool::Pool::verif_open(path).ok()?;
+        catch(|| {
+            rt.block_on(async {
+                let netinfo = tokio::time::timeout(std::time::Duration::from_secs(10), erbium_net::netinfo::SharedNetInfo::new()).await.ok()?;
+                dhcp::DhcpService::verif_new_with_pool(netinfo, c2, p).await.ok()
+            })
+        })
+        .flatten()
+    };
     let mut t = Toks::new();
     t.n(3);
     for restart in [false, true] {
         let _ = std::fs::remove_file(path);
-        let mut p = pool::Pool::verif_open(path).ok()?;
-        let mut ids: std::collections::HashSet<std::net::Ipv4Addr> = Default::default();
-        let r1 = catch(|| dhcp::handle_pkt(&mut p, &mk(1, a, None), ids.clone(), &conf))?;
-        if let Ok(r) = &r1 {
-            if let Some(si) = r.options.get_serverid() {
-                ids.insert(si);
+        let mut svc = service(&rt)?;
+        let lockedconf = conf.try_read().ok()?;
+        let r1 = rt.block_on(async {
+            let ids = svc.verif_own_serverids().await;
+            let pl = svc.verif_pool();
+            let mut p = pl.lock().await;
+            let r = catch(|| dhcp::handle_pkt(&mut p, &mk(1, a, None), ids, &lockedconf));
+            if let Some(Ok(reply)) = &r {
+                if let Some(si) = reply.options.get_serverid() {
+                    svc.verif_learn_serverid(si).await;
+                }
             }
-        }
+            r
+        })?;
         if restart {
-            drop(p);
-            p = pool::Pool::verif_open(path).ok()?;
-            ids.clear();
+            drop(svc);
+            svc = service(&rt)?;
         }
-        let r2 = catch(|| dhcp::handle_pkt(&mut p, &mk(3, b, Some(a)), ids.clone(), &conf))?;
+        let r2 = rt.block_on(async {
+            let ids = svc.verif_own_serverids().await;
+            let pl = svc.verif_pool();
+            let mut p = pl.lock().await;
+            catch(|| dhcp::handle_pkt(&mut p, &mk(3, b, Some(a)), ids, &lockedconf))
+        })?;
         t.b(r1.is_ok()).b(r2.is_ok());
     }
     let _ = std::fs::remove_file(path);
